@@ -80,14 +80,32 @@ class MThread:
         finally:
             sys.settrace(None)
             self.state = FINISHED
-            s.back.release()
+            if s.aborting:
+                s.back.release()
+            else:
+                s._switch(self)  # pass the baton
 
 
 class Scheduler:
-    def __init__(self, choices=(), max_steps=400000, preempt_at=(), record=False):
+    def __init__(self, choices=(), max_steps=400000, preempt_at=(), record=False, sparse=None):
+        """choices: dense mode - one generated int per decision that has more than one candidate.
+        sparse:  {"pre": [[skip, pick], ...], "blk": [int, ...]} - bounded-preemption mode for long
+                 scenarios: the running thread keeps running (O(1) per scheduling point) until `skip`
+                 scheduling points have passed, then it is preempted in favour of another runnable thread
+                 chosen by `pick`; whenever the running thread blocks or ends, the next one is chosen by the
+                 next `blk` int.  Exhausted lists mean: never preempt / first candidate."""
         self.threads = []
         self.choices = list(choices)
         self.ci = 0
+        self.sparse = None
+        if sparse is not None:
+            self.sparse = True
+            self.pre = [list(x) for x in sparse.get("pre", [])]
+            self.blk = list(sparse.get("blk", []))
+            self.pi = 0
+            self.bi = 0
+            self.countdown = self.pre[0][0] if self.pre else -1
+            self.preemptions = 0
         self.now = 0.0
         self.tls = threading.local()
         self.back = _thread.allocate_lock()
@@ -123,12 +141,24 @@ class Scheduler:
         self.threads.append(t)
         return t
 
+    def _switch(self, me):
+        """`me` is at a scheduling point with its state already set: decide who runs next and hand over
+        directly (baton passing: no detour through the controller thread, and no OS context switch at
+        all when the decision is to keep running `me`)"""
+        nxt = self._pick()
+        if nxt is me:
+            return
+        if nxt is None:
+            self.back.release()  # outcome decided (done / deadlock / budget): wake the controller
+        else:
+            nxt.go.release()
+        if me.state != FINISHED:
+            me.go.acquire()
+            if self.aborting:
+                raise Abort()
+
     def _park(self):
-        me = self.me()
-        self.back.release()
-        me.go.acquire()
-        if self.aborting:
-            raise Abort()
+        self._switch(self.me())
 
     def yield_point(self, op="sync"):
         me = self.me()
@@ -138,6 +168,14 @@ class Scheduler:
             raise Abort()
         if self.record:
             self._rec(me, op)
+        if self.sparse and not self.force_other:
+            # fast path of the bounded-preemption mode: keep running until the countdown hits zero
+            if self.countdown != 0:
+                if self.countdown > 0:
+                    self.countdown -= 1
+                self.steps += 1
+                if self.steps <= self.max_steps:
+                    return
         me.state = RUNNABLE
         self._park()
 
@@ -225,44 +263,92 @@ class Scheduler:
             return 1 + (c % (n - 1))
         return c % n
 
-    def run(self):
-        while True:
-            self.steps += 1
-            if self.steps > self.max_steps:
-                raise StepBudget()
-            cands = []
-            for t in self.threads:
-                if t.state == RUNNABLE:
-                    cands.append(t)
-                elif t.state == BLOCKED and t.pred():
-                    cands.append(t)
-            if not cands:
-                timed = [t for t in self.threads if t.state == BLOCKED and t.deadline is not None]
-                if timed:
-                    t = min(timed, key=lambda t: t.deadline)
-                    self.now = max(self.now, t.deadline)
-                    t.timed_out = True
-                    self.timeouts_fired += 1
-                    cands = [t]
+    def _pick(self):
+        """one scheduling decision -> the thread to run next, or None when the outcome is decided"""
+        self.steps += 1
+        if self.steps > self.max_steps:
+            self.outcome = ("budget",)
+            return None
+        cands = []
+        for t in self.threads:
+            if t.state == RUNNABLE:
+                cands.append(t)
+            elif t.state == BLOCKED and t.pred():
+                cands.append(t)
+        if not cands:
+            timed = [t for t in self.threads if t.state == BLOCKED and t.deadline is not None]
+            if timed:
+                t = min(timed, key=lambda t: t.deadline)
+                self.now = max(self.now, t.deadline)
+                t.timed_out = True
+                self.timeouts_fired += 1
+                cands = [t]
+            else:
+                pending = [t for t in self.threads if t.state == BLOCKED and t.must_finish]
+                if pending:
+                    blocked = [(t.name, t.waiting_on) for t in self.threads if t.state == BLOCKED]
+                    self.outcome = ("deadlock", blocked, self._stacks())
                 else:
-                    pending = [t for t in self.threads if t.state == BLOCKED and t.must_finish]
-                    if pending:
-                        blocked = [(t.name, t.waiting_on) for t in self.threads if t.state == BLOCKED]
-                        raise Deadlock(blocked, self._stacks())
-                    return
-            # keeping the thread that ran last is choice 0: shrinking choices towards 0 removes switches
-            if self.last in cands:
-                cands.remove(self.last)
-                cands.insert(0, self.last)
-            elif self.force_other:
-                self.force_other = False  # the preempted thread blocked/finished: nothing to force
+                    self.outcome = ("done",)
+                return None
+        # keeping the thread that ran last is choice 0: shrinking choices towards 0 removes switches
+        if self.last in cands:
+            cands.remove(self.last)
+            cands.insert(0, self.last)
+        elif self.force_other:
+            self.force_other = False  # the preempted thread blocked/finished: nothing to force
+        if self.sparse:
+            t = self._pick_sparse(cands)
+        else:
             t = cands[self.choose(len(cands))]
-            if t is not self.last:
-                self.switches += 1
-            self.last = t
-            t.state = RUNNABLE
-            t.go.release()
+        if t is not self.last:
+            self.switches += 1
+        self.last = t
+        t.state = RUNNABLE
+        return t
+
+    def _pick_sparse(self, cands):
+        running = cands[0] is self.last and self.last.state == RUNNABLE
+        if running and (self.countdown == 0 or self.force_other):
+            # a preemption point: switch to another runnable thread if there is one
+            forced_by_line = self.force_other
+            self.force_other = False
+            pick = 0
+            if not forced_by_line:
+                pick = self.pre[self.pi][1]
+                self.pi += 1
+                self.countdown = self.pre[self.pi][0] if self.pi < len(self.pre) else -1
+            else:
+                if self.bi < len(self.blk):
+                    pick = self.blk[self.bi]
+                self.bi += 1
+            if len(cands) > 1:
+                self.preemptions += 1
+                return cands[1 + pick % (len(cands) - 1)]
+            return cands[0]
+        if running:
+            return cands[0]
+        # the thread that ran last blocked or ended: free choice among the runnable ones
+        self.force_other = False
+        if len(cands) == 1:
+            return cands[0]
+        pick = 0
+        if self.bi < len(self.blk):
+            pick = self.blk[self.bi]
+        self.bi += 1
+        return cands[pick % len(cands)]
+
+    def run(self):
+        self.outcome = None
+        nxt = self._pick()
+        if nxt is not None:
+            nxt.go.release()
             self.back.acquire()
+        out = self.outcome
+        if out[0] == "budget":
+            raise StepBudget()
+        if out[0] == "deadlock":
+            raise Deadlock(out[1], out[2])
 
     def _stacks(self):
         import traceback
